@@ -756,13 +756,25 @@ where
                         }
                     }
                     used_prio_indices.push(bin_op_idx);
+                    #[cfg(exmex_verif)]
+                    crate::verif::emit(|| {
+                        format!("{{\"ev\":\"fold\",\"form\":\"flat\",\"op\":{bin_op_idx},\"node\":{num_idx}}}")
+                    });
                 } else {
                     already_declined[num_idx] = true;
                     already_declined[num_idx + 1] = true;
+                    #[cfg(exmex_verif)]
+                    crate::verif::emit(|| {
+                        format!("{{\"ev\":\"decline\",\"form\":\"flat\",\"op\":{bin_op_idx},\"node\":{num_idx}}}")
+                    });
                 }
             } else {
                 already_declined[num_idx] = true;
                 already_declined[num_idx + 1] = true;
+                #[cfg(exmex_verif)]
+                crate::verif::emit(|| {
+                    format!("{{\"ev\":\"skip\",\"form\":\"flat\",\"op\":{bin_op_idx},\"node\":{num_idx}}}")
+                });
             }
         }
 
@@ -825,6 +837,72 @@ where
             &self.nodes,
             &self.flat_ops,
             &self.prio_indices,
+        )
+    }
+}
+
+#[cfg(exmex_verif)]
+impl<T, OF, LMF> FlatEx<T, OF, LMF>
+where
+    T: DataType,
+    OF: MakeOperators<T>,
+    LMF: MatchLiteral,
+{
+    /// Structural view of the expression as JSON, for verification harnesses only.
+    pub fn verif_dump(&self) -> String {
+        use crate::verif::json_str;
+        let unary = |u: &UnaryOp<T>| {
+            let idxs = u
+                .funcs_to_be_composed()
+                .iter()
+                .map(|f| f.idx.to_string())
+                .collect::<Vec<_>>();
+            format!("[{}]", idxs.join(","))
+        };
+        let nodes = self
+            .nodes
+            .iter()
+            .map(|n| match &n.kind {
+                FlatNodeKind::Num(x) => format!(
+                    "{{\"k\":\"num\",\"v\":{},\"un\":{}}}",
+                    json_str(&format!("{x:?}")),
+                    unary(&n.unary_op)
+                ),
+                FlatNodeKind::Var(i) => {
+                    format!("{{\"k\":\"var\",\"i\":{},\"un\":{}}}", i, unary(&n.unary_op))
+                }
+            })
+            .collect::<Vec<_>>();
+        let ops = self
+            .flat_ops
+            .iter()
+            .map(|o| {
+                format!(
+                    "{{\"idx\":{},\"prio\":{},\"comm\":{},\"un\":{}}}",
+                    o.bin_op.idx,
+                    o.bin_op.op.prio,
+                    o.bin_op.op.is_commutative,
+                    unary(&o.unary_op)
+                )
+            })
+            .collect::<Vec<_>>();
+        let prio = self
+            .prio_indices
+            .iter()
+            .map(|i| i.to_string())
+            .collect::<Vec<_>>();
+        let vars = self
+            .var_names
+            .iter()
+            .map(|v| json_str(v))
+            .collect::<Vec<_>>();
+        format!(
+            "{{\"nodes\":[{}],\"ops\":[{}],\"prio_indices\":[{}],\"vars\":[{}],\"text\":{}}}",
+            nodes.join(","),
+            ops.join(","),
+            prio.join(","),
+            vars.join(","),
+            json_str(&self.text)
         )
     }
 }
